@@ -56,15 +56,17 @@ def mapGetStr (m : List (Str × Str)) (key : Str) : Str :=
 /-- `strings.Builder.Len()` of a builder that received the runes of `s` through `WriteRune` -/
 def byteLen (s : Str) : Nat := (s.map Char.utf8Size).sum
 
-/-- one iteration of the loop; state = (currentCodon, aminoAcids) -/
+/-- one iteration of the loop; state = (currentCodon, aminoAcids).  The `aminoAcids` builder is kept with its
+most recently written character FIRST (a write prepends the reversed string), so that a write costs the
+length of what is written; `translateCore` reverses it once at the end. -/
 def step (m : List (Str × Str)) (st : Str × Str) (letter : Char) : Str × Str :=
   let buf := st.1 ++ [letter]
-  if byteLen buf = 3 then ([], st.2 ++ mapGetStr m (upper buf)) else (buf, st.2)
+  if byteLen buf = 3 then ([], (mapGetStr m (upper buf)).reverse ++ st.2) else (buf, st.2)
 
 def translateLoop (m : List (Str × Str)) (st : Str × Str) (s : Str) : Str × Str := s.foldl (step m) st
 
-/-- the translation proper (after the two guards) -/
-def translateCore (t : Table) (s : Str) : Str := (translateLoop (translationMap t) ([], []) s).2
+/-- the translation proper (after the two guards): `aminoAcids.String()` -/
+def translateCore (t : Table) (s : Str) : Str := (translateLoop (translationMap t) ([], []) s).2.reverse
 
 def emptyTable (t : Table) : Bool :=
   t.startCodons.length == 0 && t.stopCodons.length == 0 && t.aminoAcids.length == 0
